@@ -44,6 +44,8 @@ pub struct Tamper {
     pub prev_conf_tag: Option<Vec<u8>>,
     pub stashed_gi: Option<(usize, MlsMessage)>,
     pub rng: Rng,
+    /// identity the group context authorises as external sender (half of the histories)
+    pub ext_signer: Option<(mls_rs_core::crypto::SignatureSecretKey, mls_rs::identity::SigningIdentity)>,
 }
 
 /// What differs between `base` and `g` after discounting observationally equivalent secret
@@ -150,6 +152,7 @@ impl Tamper {
             prev_conf_tag: None,
             stashed_gi: None,
             rng,
+            ext_signer: None,
         }
     }
 
@@ -664,6 +667,26 @@ impl Tamper {
                 }
             }
         }
+        // an external sender authorised in both groups (same signer, same index, same epoch)
+        if let Some((sk, si)) = self.ext_signer.clone() {
+            use mls_rs::external_client::builder::ExternalClientBuilder;
+            let ec = ExternalClientBuilder::new()
+                .identity_provider(VIdent::default())
+                .crypto_provider(crate::anycrypto::AnyCrypto::new(prov))
+                .extension_types([mls_rs_core::extension::ExtensionType::new(EXT_A), mls_rs_core::extension::ExtensionType::new(EXT_B)])
+                .custom_proposal_types([mls_rs_core::group::ProposalType::new(CUSTOM_PROP), mls_rs_core::group::ProposalType::new(CUSTOM_PROP_PATH)])
+                .signer(sk, si)
+                .build();
+            if let Ok(Ok(gi2)) = guarded(|| g2.group_info_message(true)) {
+                if let Ok(Ok(mut eg)) = guarded(|| ec.observe_group(gi2, None, None)) {
+                    if let Ok(Ok(m)) = guarded(|| eg.propose_remove(0, vec![])) {
+                        if let Ok(b) = m.to_bytes() {
+                            msgs.push(("external_sender_proposal_of_sibling_group", b));
+                        }
+                    }
+                }
+            }
+        }
         if let Ok(Ok(m)) = guarded(|| g2.propose_group_context_extensions(w.base_gce(), vec![])) {
             if let Ok(b) = m.to_bytes() {
                 msgs.push(("member_proposal_of_sibling_group", b));
@@ -1094,6 +1117,20 @@ fn reattribute_private(w: &World, from: usize, p: &vh::PrivateParts, new_leaf: u
 }
 
 impl Hooks for Tamper {
+    fn init(&mut self, w: &mut World) {
+        if self.rng.chance(1, 2) {
+            let cs = w.suite_of(w.cfg.provs[0]);
+            if let Ok((sk, pk)) = cs.signature_key_generate() {
+                let si = mls_rs::identity::SigningIdentity::new(
+                    mls_rs::identity::basic::BasicCredential::new(b"external-sender".to_vec()).into_credential(),
+                    pk,
+                );
+                w.keep_exts.push(super::c16::external_senders_ext(&si));
+                self.ext_signer = Some((sk, si));
+            }
+        }
+    }
+
     fn on_message(&mut self, w: &mut World, kind: &'static str, from: usize, msg: &MlsMessage) {
         let epoch = msg.epoch().unwrap_or_else(|| w.epoch());
         let private = vh::split_private(msg).is_some();
@@ -1227,6 +1264,7 @@ pub fn run(a: &Args, c04: bool) -> ShardOut {
             p_race: (1, 6),
             ..DriveCfg::default()
         };
+        hooks.init(&mut w);
         let mut res = w.bootstrap(n0, &mut NoHooks);
         if res.is_ok() {
             for _ in 0..rounds {
